@@ -102,6 +102,8 @@ func apiRun(args []string) error {
 			// ... and tokens much longer than any display width (the Trace option prints tokens; it must not touch them)
 			long := strings.Repeat("xy", 30)
 			allS = append(allS, long, "( "+long+" 7", long+" "+strings.Repeat("9", 40)+" !")
+			// ... and bytes that are not UTF-8 (the core lexer's Punct class takes them): no entry point may treat them specially
+			allS = append(allS, "\xff", "a \xe9 b", "( x \xff\xfe", "\xc3")
 			for i, s := range allS {
 				emit := func(ep, out string) { fmt.Fprintf(w, "%s\t%d\t%d\t%s\t%s\n", g.ID, k, i, ep, out) }
 				render := func(ast *DynRoot, err error, raw []lexer.Token) (res string) {
